@@ -79,6 +79,7 @@ bool BlockingWorld::on_block_tcp(Conn &c, BlockWhat w) {
 		N.srv_write(c, bytes + env.extra_after);
 		replied_ = true;
 		progress_ = 0;
+		reply_len_ = bytes.size();
 	}
 	if (c.inflight() == 0) return false;
 	size_t n = env.chunk ? env.chunk : c.inflight();
@@ -88,7 +89,7 @@ bool BlockingWorld::on_block_tcp(Conn &c, BlockWhat w) {
 		if (k) N.deliver(c, k);
 		progress_ += k;
 		// the fault counts as one that hit the call only if it cut the reply short (a close / reset after the last byte leaves a complete reply)
-		if (c.inflight() > 0) fault_fired = true; else K.count("probe.fault_after_complete_reply");
+		if (progress_ < reply_len_) fault_fired = true; else K.count("probe.fault_after_complete_reply"); // (bytes the server sent after the reply do not count)
 		if (env.fault == 1) { N.srv_close(c); c.s2c_all.resize(c.s2c_arrived); N.deliver(c, 0); K.count("fault.close"); }
 		else { N.srv_reset(c); K.count("fault.reset"); }
 		return true;
